@@ -191,7 +191,7 @@ public:
             return {pos, lo, hi};
         }
 
-        auto p = to_int64(root_slope * (k - first_key)) + root_intercept;
+        auto p = to_int64(double(root_slope) * double(k - first_key)) + root_intercept;
         auto pos = std::min<size_t>(p > 0 ? size_t(p) : 0ull, root_range);
 
         for (const auto &level : levels) {
@@ -386,7 +386,7 @@ struct CompressedPGMIndex<K, Epsilon, EpsilonRecursive, Floating>::CompressedLev
     }
 
     inline size_t operator()(const std::vector<Floating> &slopes, size_t i, K k) const {
-        auto pos = to_int64(get_slope(slopes, i) * (k - keys[i])) + get_intercept(i);
+        auto pos = to_int64(double(get_slope(slopes, i)) * double(k - keys[i])) + get_intercept(i);
         return pos > 0 ? size_t(pos) : 0ull;
     }
 
